@@ -324,3 +324,116 @@ Proof.
     + apply cc_on_loss_ok.
     + intros Hr. cbn. apply rtte_timeout_bounds in Hr. lia.
 Qed.
+
+(* ---------- dispatch_decide ---------- *)
+Lemma decide_spec : forall cx s s2 go tg,
+  tcp_dispatch_decide cx s = Ok (s2, go, tg) ->
+  (go = true /\ s2 = s) \/
+  (go = false /\ s2 = upd_tuple (tcp_set_state s Closed) None) \/
+  (go = false /\ s2 = s /\
+   tcp_seq_to_transmit cx s = Ok false /\
+   tcp_ack_to_transmit s && tcp_delayed_ack_expired s (cx_now cx) = false /\
+   tcp_window_to_update s = Ok false /\
+   tcp_state_eqb (s_state s) Closed = false /\
+   timer_should_keep_alive (s_timer s) (cx_now cx) = false /\
+   timer_should_zero_window_probe (s_timer s) (cx_now cx) = false /\
+   timer_should_close (s_timer s) (cx_now cx) = false).
+Proof.
+  intros cx s s2 go tg H. unfold tcp_dispatch_decide in H.
+  destruct (tcp_seq_to_transmit cx s) as [[|]|e|]; cbn [obind] in H; try discriminate;
+    [inversion H; auto|].
+  destruct (tcp_ack_to_transmit s && tcp_delayed_ack_expired s (cx_now cx)); [inversion H; auto|].
+  destruct (tcp_window_to_update s) as [[|]|e|]; cbn [obind] in H; try discriminate;
+    [inversion H; auto|].
+  destruct (tcp_state_eqb (s_state s) Closed); [inversion H; auto|].
+  destruct (timer_should_keep_alive (s_timer s) (cx_now cx)); [inversion H; auto|].
+  destruct (timer_should_zero_window_probe (s_timer s) (cx_now cx)); [inversion H; auto|].
+  destruct (timer_should_close (s_timer s) (cx_now cx)); inversion H; subst; [right; left; auto|].
+  right; right. repeat split; reflexivity.
+Qed.
+
+(* ---------- dispatch_build: nothing is built only in LISTEN ---------- *)
+Lemma build_data_some : forall cx s repr s3 o z tg,
+  tcp_dispatch_build_data cx s repr = Ok (s3, o, z, tg) -> o <> None.
+Proof.
+  intros cx s repr s3 o z tg H. unfold tcp_dispatch_build_data in H.
+  obind_inv H. obind_inv H. obind_inv H. destruct a1 as ((((s', r'), off), zw), tg').
+  inversion H; subst. discriminate.
+Qed.
+
+Lemma build_none_listen : forall cx s t s3 z k tg,
+  tcp_dispatch_build cx s t = Ok (s3, None, z, k, tg) -> s_state s = Listen.
+Proof.
+  intros cx s t s3 z k tg H. unfold tcp_dispatch_build in H.
+  obind_inv H. destruct a as (((sb, ob), zb), tb).
+  destruct ob as [rb|].
+  - obind_inv H. inversion H.
+  - destruct (s_state s); try reflexivity; try (inversion E; fail);
+      try (apply build_data_some in E; congruence).
+    destruct (s_syn_unacked_in_fin_wait s); [inversion E | apply build_data_some in E; congruence].
+Qed.
+
+Lemma tcp_state_eqb_false : forall a b, tcp_state_eqb a b = false -> a <> b.
+Proof. intros [] []; cbn; congruence. Qed.
+
+Lemma tcp_state_eqb_true : forall a b, tcp_state_eqb a b = true -> a = b.
+Proof. intros [] []; cbn; congruence. Qed.
+
+Lemma timer_future_after : forall t now,
+  timer_should_retransmit t now = false -> timer_should_keep_alive t now = false ->
+  timer_should_zero_window_probe t now = false -> timer_should_close t now = false ->
+  pa_future now (timer_poll_at t).
+Proof.
+  intros [[k|]| e | | e d | e] now H1 H2 H3 H4; cbn in *; try lia; try exact I; discriminate.
+Qed.
+
+Lemma tcp_no_spin_lemma : forall cx s emit_ok s' tags p,
+  rtte_ok (s_rtte s) -> (s_state s = Listen -> s_tuple s = None) ->
+  tcp_dispatch cx s emit_ok = Ok (s', DNothing, tags) ->
+  tcp_poll_at cx s' = Ok p -> pa_future (cx_now cx) p.
+Proof.
+  intros cx s emit_ok s' tags p Hr Hl Hd Hp. unfold tcp_dispatch in Hd.
+  destruct (s_tuple s) as [t|] eqn:Ht.
+  2:{ inversion Hd; subst s'. rewrite (poll_at_no_tuple _ _ Ht) in Hp. inversion Hp. exact I. }
+  destruct (negb (tu_local_addr t =? cx_addr cx)).
+  { inversion Hd; subst s'. rewrite (poll_at_no_tuple _ _ (tcp_reset_tuple s)) in Hp.
+    inversion Hp. exact I. }
+  obind_inv Hd. destruct a as (s1, t1). obind_inv Hd. destruct a as ((s2, go), t2).
+  pose proof (dt_pre_core cx s) as (Q1 & Q2 & Q3 & Q4 & Q5 & Q6 & Q7 & Q8 & Q9 & Q10).
+  pose proof (dt_pre_lts cx s) as Qlts. pose proof (dt_pre_misc cx s) as (Qto & _).
+  destruct (decide_spec _ _ _ _ _ E0) as [(-> & ->) | [(-> & ->) | (-> & -> & D1 & D2 & D3 & D4 & D5 & D6 & D7)]].
+  - (* a reason to send: something is built unless LISTEN, which has no tuple *)
+    cbn [negb] in Hd. obind_inv Hd. destruct a as ((((s3, o), z), k), t3).
+    destruct o as [repr|].
+    + destruct (negb emit_ok); [inversion Hd|].
+      destruct (tcp_dispatch_finish cx s3 repr z k). inversion Hd.
+    + exfalso. apply build_none_listen in E1.
+      destruct (dt_spec _ _ _ _ E) as [(_ & ->) | [(_ & _ & ->) | (_ & _ & Hs & _)]].
+      * sproj in E1. discriminate E1.
+      * rewrite Q1 in E1. discriminate (Hl E1).
+      * rewrite Hs, Q1 in E1. discriminate (Hl E1).
+  - (* TIME-WAIT expired *)
+    cbn [negb] in Hd. inversion Hd; subst s'.
+    rewrite poll_at_no_tuple in Hp by (sproj; reflexivity). inversion Hp. exact I.
+  - (* nothing to do: every guard of dispatch is false, and poll_at reads the same guards *)
+    cbn [negb] in Hd. inversion Hd; subst s'. clear Hd.
+    unfold tcp_poll_at in Hp. rewrite D1, D3, D4 in Hp. cbn [obind] in Hp.
+    assert (Hfacts : is_some (s_tuple s1) = true /\ is_some (s_remote_last_ts s1) = true /\
+                     tcp_timed_out s1 (cx_now cx) = false /\
+                     timer_should_retransmit (s_timer s1) (cx_now cx) = false).
+    { destruct (dt_spec _ _ _ _ E) as [(_ & ->) | [(Hto & Hsr & ->) | (Hto & _ & Hs & Htu & _ & _ & _ & _ & Hlts & Htmo & _ & _ & _ & Hsr & _)]].
+      - sproj in D4. discriminate D4.
+      - rewrite Q3, Ht. auto.
+      - rewrite Htu, Q3, Ht, Hlts. split; [reflexivity|]. split; [exact Qlts|]. split.
+        + unfold tcp_timed_out in *. rewrite Hlts, Htmo. exact Hto.
+        + apply Hsr. rewrite Q10. exact Hr. }
+    destruct Hfacts as (F1 & F2 & F3 & F4). rewrite F1, F2 in Hp. cbn [negb] in Hp.
+    inversion Hp as [Hp']; clear Hp.
+    apply poll_at_min_future. split; [apply poll_at_min_future; split|].
+    + apply timer_future_after; assumption.
+    + unfold tcp_timed_out in F3.
+      destruct (s_remote_last_ts s1); [|exact I]. destruct (s_timeout s1); [cbn; lia | exact I].
+    + destruct (tcp_ack_to_transmit s1); [|exact I]. cbn [negb andb] in *.
+      unfold tcp_delayed_ack_expired in D2. destruct (s_ack_delay_timer s1); try discriminate.
+      cbn. lia.
+Qed.
